@@ -10,9 +10,9 @@ impl StorageEngine {
 //@@   rewrite R2
     fn delete(&self, shard_guard: &mut DatabaseShard, key: &[u8]) -> (r: Result<bool>)
         ensures
-            step_ok(*old(shard_guard), *final(shard_guard), key_of(key@)),
-            r == Ok::<bool, FerrousError>(old(shard_guard).data@.contains_key(key_of(key@))),
-            !final(shard_guard).data@.contains_key(key_of(key@)),
+            step_ok(eff(*old(shard_guard), key_of(key@)), sv(*final(shard_guard)), key_of(key@)),
+            r == Ok::<bool, FerrousError>(eff(*old(shard_guard), key_of(key@)).data.contains_key(key_of(key@))),
+            !sv(*final(shard_guard)).data.contains_key(key_of(key@)),
 //@@ body
 //@@ end
 
@@ -22,16 +22,16 @@ impl StorageEngine {
 //@@   rewrite R2
     fn get(&self, shard_guard: &mut DatabaseShard, key: &[u8]) -> (r: Result<GetResult>)
         ensures
-            step_ok(*old(shard_guard), *final(shard_guard), key_of(key@)),
+            step_ok(sv(*old(shard_guard)), sv(*final(shard_guard)), key_of(key@)),
             // absent
-            !old(shard_guard).data@.contains_key(key_of(key@)) ==> r == Ok::<GetResult, FerrousError>(GetResult::NotFound) && unchanged(*old(shard_guard), *final(shard_guard)),
+            !sv(*old(shard_guard)).data.contains_key(key_of(key@)) ==> r == Ok::<GetResult, FerrousError>(GetResult::NotFound) && unchanged(sv(*old(shard_guard)), sv(*final(shard_guard))),
             // present and live: value returned, nothing changes
-            old(shard_guard).data@.contains_key(key_of(key@)) && !expired(old(shard_guard).data@[key_of(key@)]) ==>
-                r == Ok::<GetResult, FerrousError>(GetResult::Found(old(shard_guard).data@[key_of(key@)].value)) && unchanged(*old(shard_guard), *final(shard_guard)),
+            sv(*old(shard_guard)).data.contains_key(key_of(key@)) && !expired(sv(*old(shard_guard)).data[key_of(key@)]) ==>
+                r == Ok::<GetResult, FerrousError>(GetResult::Found(sv(*old(shard_guard)).data[key_of(key@)].value)) && unchanged(sv(*old(shard_guard)), sv(*final(shard_guard))),
             // present but past its deadline: reported as expired, removed from key space and index, and marked for WATCH
-            old(shard_guard).data@.contains_key(key_of(key@)) && expired(old(shard_guard).data@[key_of(key@)]) ==>
-                r == Ok::<GetResult, FerrousError>(GetResult::Expired) && !final(shard_guard).data@.contains_key(key_of(key@))
-                && !final(shard_guard).expiring_keys@.contains_key(key_of(key@)) && marks(*final(shard_guard)).contains(key@),
+            sv(*old(shard_guard)).data.contains_key(key_of(key@)) && expired(sv(*old(shard_guard)).data[key_of(key@)]) ==>
+                r == Ok::<GetResult, FerrousError>(GetResult::Expired) && !sv(*final(shard_guard)).data.contains_key(key_of(key@))
+                && !sv(*final(shard_guard)).exp.contains_key(key_of(key@)) && marks(sv(*final(shard_guard))).contains(key@),
 //@@ body
 //@@ end
 
@@ -39,7 +39,7 @@ impl StorageEngine {
 //@@   params drop "db: DatabaseIndex" add "shard_guard: &DatabaseShard"
 //@@   rewrite R2
     fn exists(&self, shard_guard: &DatabaseShard, key: &[u8]) -> (r: Result<bool>)
-        ensures r == Ok::<bool, FerrousError>(shard_guard.data@.contains_key(key_of(key@)) && !expired(shard_guard.data@[key_of(key@)])),
+        ensures r == Ok::<bool, FerrousError>(sv(*shard_guard).data.contains_key(key_of(key@)) && !expired(sv(*shard_guard).data[key_of(key@)])),
 //@@ body
 //@@ end
 
@@ -48,12 +48,12 @@ impl StorageEngine {
 //@@   rewrite R2
     fn expire(&self, shard_guard: &mut DatabaseShard, key: &[u8], expires_in: Duration) -> (r: Result<bool>)
         ensures
-            step_ok(*old(shard_guard), *final(shard_guard), key_of(key@)),
-            r == Ok::<bool, FerrousError>(old(shard_guard).data@.contains_key(key_of(key@))),
-            old(shard_guard).data@.contains_key(key_of(key@)) ==> final(shard_guard).data@.contains_key(key_of(key@))
-                && final(shard_guard).data@[key_of(key@)].value == old(shard_guard).data@[key_of(key@)].value
-                && (final(shard_guard).data@[key_of(key@)].metadata.expires_at matches Some(d) && iv(d) == sat_deadline(expires_in)),
-            !old(shard_guard).data@.contains_key(key_of(key@)) ==> unchanged(*old(shard_guard), *final(shard_guard)),
+            step_ok(eff(*old(shard_guard), key_of(key@)), sv(*final(shard_guard)), key_of(key@)),
+            r == Ok::<bool, FerrousError>(eff(*old(shard_guard), key_of(key@)).data.contains_key(key_of(key@))),
+            eff(*old(shard_guard), key_of(key@)).data.contains_key(key_of(key@)) ==> sv(*final(shard_guard)).data.contains_key(key_of(key@))
+                && sv(*final(shard_guard)).data[key_of(key@)].value == eff(*old(shard_guard), key_of(key@)).data[key_of(key@)].value
+                && (sv(*final(shard_guard)).data[key_of(key@)].metadata.expires_at matches Some(d) && iv(d) == sat_deadline(expires_in)),
+            !eff(*old(shard_guard), key_of(key@)).data.contains_key(key_of(key@)) ==> unchanged(eff(*old(shard_guard), key_of(key@)), sv(*final(shard_guard))),
 //@@ body
 //@@ end
 
@@ -62,29 +62,30 @@ impl StorageEngine {
 //@@   rewrite R2
     fn persist(&self, shard_guard: &mut DatabaseShard, key: &[u8]) -> (r: Result<bool>)
         ensures
-            step_ok(*old(shard_guard), *final(shard_guard), key_of(key@)),
-            r == Ok::<bool, FerrousError>(old(shard_guard).data@.contains_key(key_of(key@)) && old(shard_guard).data@[key_of(key@)].metadata.expires_at is Some),
-            old(shard_guard).data@.contains_key(key_of(key@)) ==> final(shard_guard).data@.contains_key(key_of(key@))
-                && final(shard_guard).data@[key_of(key@)].value == old(shard_guard).data@[key_of(key@)].value
-                && final(shard_guard).data@[key_of(key@)].metadata.expires_at is None,
-            !old(shard_guard).data@.contains_key(key_of(key@)) ==> unchanged(*old(shard_guard), *final(shard_guard)),
+            step_ok(eff(*old(shard_guard), key_of(key@)), sv(*final(shard_guard)), key_of(key@)),
+            r == Ok::<bool, FerrousError>(eff(*old(shard_guard), key_of(key@)).data.contains_key(key_of(key@)) && eff(*old(shard_guard), key_of(key@)).data[key_of(key@)].metadata.expires_at is Some),
+            eff(*old(shard_guard), key_of(key@)).data.contains_key(key_of(key@)) ==> sv(*final(shard_guard)).data.contains_key(key_of(key@))
+                && sv(*final(shard_guard)).data[key_of(key@)].value == eff(*old(shard_guard), key_of(key@)).data[key_of(key@)].value
+                && sv(*final(shard_guard)).data[key_of(key@)].metadata.expires_at is None,
+            !eff(*old(shard_guard), key_of(key@)).data.contains_key(key_of(key@)) ==> unchanged(eff(*old(shard_guard), key_of(key@)), sv(*final(shard_guard))),
 //@@ body
 //@@ end
 
 //@@ unit ttl fn src/storage/engine.rs StorageEngine::ttl
-//@@   params drop "db: DatabaseIndex" add "shard_guard: &DatabaseShard"
+//@@   params drop "db: DatabaseIndex" add "shard_guard: &mut DatabaseShard"
 //@@   rewrite R2
 //@@   rewrite R7 "expires_at > now" verif_instant_gt
 //@@   rewrite R7 "expires_at - now" verif_instant_sub
-    fn ttl(&self, shard_guard: &DatabaseShard, key: &[u8]) -> (r: Result<Option<Duration>>)
+    fn ttl(&self, shard_guard: &mut DatabaseShard, key: &[u8]) -> (r: Result<Option<Duration>>)
         ensures
+            unchanged(eff(*old(shard_guard), key_of(key@)), sv(*final(shard_guard))),
             r is Ok,
             // no deadline or absent: None
-            (!shard_guard.data@.contains_key(key_of(key@)) || shard_guard.data@[key_of(key@)].metadata.expires_at is None) ==> r->Ok_0 is None,
+            (!eff(*old(shard_guard), key_of(key@)).data.contains_key(key_of(key@)) || eff(*old(shard_guard), key_of(key@)).data[key_of(key@)].metadata.expires_at is None) ==> r->Ok_0 is None,
             // deadline in the future: exactly the remaining time; reached or passed: zero
-            shard_guard.data@.contains_key(key_of(key@)) && (shard_guard.data@[key_of(key@)].metadata.expires_at matches Some(d) && iv(d) > spec_now())
-                ==> (r->Ok_0 matches Some(t) && dur_nanos(t) == iv(shard_guard.data@[key_of(key@)].metadata.expires_at->Some_0) - spec_now()),
-            shard_guard.data@.contains_key(key_of(key@)) && (shard_guard.data@[key_of(key@)].metadata.expires_at matches Some(d) && iv(d) <= spec_now())
+            eff(*old(shard_guard), key_of(key@)).data.contains_key(key_of(key@)) && (eff(*old(shard_guard), key_of(key@)).data[key_of(key@)].metadata.expires_at matches Some(d) && iv(d) > spec_now())
+                ==> (r->Ok_0 matches Some(t) && dur_nanos(t) == iv(eff(*old(shard_guard), key_of(key@)).data[key_of(key@)].metadata.expires_at->Some_0) - spec_now()),
+            eff(*old(shard_guard), key_of(key@)).data.contains_key(key_of(key@)) && (eff(*old(shard_guard), key_of(key@)).data[key_of(key@)].metadata.expires_at matches Some(d) && iv(d) <= spec_now())
                 ==> (r->Ok_0 matches Some(t) && dur_nanos(t) == 0),
 //@@ body
 //@@ end
@@ -94,11 +95,11 @@ impl StorageEngine {
 //@@   rewrite R2
     fn set_value(&self, shard_guard: &mut DatabaseShard, key: Key, value: Value, expires_in: Option<Duration>) -> (r: Result<()>)
         ensures
-            step_ok(*old(shard_guard), *final(shard_guard), key),
-            r is Err ==> unchanged(*old(shard_guard), *final(shard_guard)),
-            r is Ok ==> final(shard_guard).data@.contains_key(key) && final(shard_guard).data@[key].value == value && marks(*final(shard_guard)).contains(key@)
-                && (expires_in is None ==> final(shard_guard).data@[key].metadata.expires_at is None)
-                && (expires_in matches Some(d) ==> (final(shard_guard).data@[key].metadata.expires_at matches Some(t) && iv(t) == sat_deadline(d))),
+            step_ok(sv(*old(shard_guard)), sv(*final(shard_guard)), key),
+            r is Err ==> unchanged(sv(*old(shard_guard)), sv(*final(shard_guard))),
+            r is Ok ==> sv(*final(shard_guard)).data.contains_key(key) && sv(*final(shard_guard)).data[key].value == value && marks(sv(*final(shard_guard))).contains(key@)
+                && (expires_in is None ==> sv(*final(shard_guard)).data[key].metadata.expires_at is None)
+                && (expires_in matches Some(d) ==> (sv(*final(shard_guard)).data[key].metadata.expires_at matches Some(t) && iv(t) == sat_deadline(d))),
 //@@ body
 //@@ end
 
@@ -107,13 +108,13 @@ impl StorageEngine {
 //@@   rewrite R2
     fn set_string_nx(&self, shard_guard: &mut DatabaseShard, key: Key, value: Vec<u8>) -> (r: Result<bool>)
         ensures
-            step_ok(*old(shard_guard), *final(shard_guard), key),
+            step_ok(sv(*old(shard_guard)), sv(*final(shard_guard)), key),
             // key is live: refused, nothing changes
-            old(shard_guard).data@.contains_key(key) && !expired(old(shard_guard).data@[key]) ==> r == Ok::<bool, FerrousError>(false) && unchanged(*old(shard_guard), *final(shard_guard)),
-            r is Err ==> unchanged(*old(shard_guard), *final(shard_guard)),
-            r == Ok::<bool, FerrousError>(true) ==> final(shard_guard).data@.contains_key(key) && final(shard_guard).data@[key].value == Value::String(value)
-                && final(shard_guard).data@[key].metadata.expires_at is None,
-            r matches Ok(b) ==> b == !(old(shard_guard).data@.contains_key(key) && !expired(old(shard_guard).data@[key])),
+            sv(*old(shard_guard)).data.contains_key(key) && !expired(sv(*old(shard_guard)).data[key]) ==> r == Ok::<bool, FerrousError>(false) && unchanged(sv(*old(shard_guard)), sv(*final(shard_guard))),
+            r is Err ==> unchanged(sv(*old(shard_guard)), sv(*final(shard_guard))),
+            r == Ok::<bool, FerrousError>(true) ==> sv(*final(shard_guard)).data.contains_key(key) && sv(*final(shard_guard)).data[key].value == Value::String(value)
+                && sv(*final(shard_guard)).data[key].metadata.expires_at is None,
+            r matches Ok(b) ==> b == !(sv(*old(shard_guard)).data.contains_key(key) && !expired(sv(*old(shard_guard)).data[key])),
 //@@ body
 //@@ end
 
@@ -122,12 +123,12 @@ impl StorageEngine {
 //@@   rewrite R2
     fn set_string_nx_ex(&self, shard_guard: &mut DatabaseShard, key: Key, value: Vec<u8>, expires_in: Duration) -> (r: Result<bool>)
         ensures
-            step_ok(*old(shard_guard), *final(shard_guard), key),
-            old(shard_guard).data@.contains_key(key) && !expired(old(shard_guard).data@[key]) ==> r == Ok::<bool, FerrousError>(false) && unchanged(*old(shard_guard), *final(shard_guard)),
-            r is Err ==> unchanged(*old(shard_guard), *final(shard_guard)),
-            r == Ok::<bool, FerrousError>(true) ==> final(shard_guard).data@.contains_key(key) && final(shard_guard).data@[key].value == Value::String(value)
-                && (final(shard_guard).data@[key].metadata.expires_at matches Some(t) && iv(t) == sat_deadline(expires_in)),
-            r matches Ok(b) ==> b == !(old(shard_guard).data@.contains_key(key) && !expired(old(shard_guard).data@[key])),
+            step_ok(sv(*old(shard_guard)), sv(*final(shard_guard)), key),
+            sv(*old(shard_guard)).data.contains_key(key) && !expired(sv(*old(shard_guard)).data[key]) ==> r == Ok::<bool, FerrousError>(false) && unchanged(sv(*old(shard_guard)), sv(*final(shard_guard))),
+            r is Err ==> unchanged(sv(*old(shard_guard)), sv(*final(shard_guard))),
+            r == Ok::<bool, FerrousError>(true) ==> sv(*final(shard_guard)).data.contains_key(key) && sv(*final(shard_guard)).data[key].value == Value::String(value)
+                && (sv(*final(shard_guard)).data[key].metadata.expires_at matches Some(t) && iv(t) == sat_deadline(expires_in)),
+            r matches Ok(b) ==> b == !(sv(*old(shard_guard)).data.contains_key(key) && !expired(sv(*old(shard_guard)).data[key])),
 //@@ body
 //@@ end
 
@@ -136,21 +137,21 @@ impl StorageEngine {
 //@@   rewrite R2
     fn incr_by(&self, shard_guard: &mut DatabaseShard, key: Key, increment: i64) -> (r: Result<i64>)
         ensures
-            step_ok(*old(shard_guard), *final(shard_guard), key),
+            step_ok(eff(*old(shard_guard), key), sv(*final(shard_guard)), key),
             // refused (not an integer / wrong type / overflow / OOM): dataset exactly as it was
-            r is Err ==> unchanged(*old(shard_guard), *final(shard_guard)),
+            r is Err ==> unchanged(eff(*old(shard_guard), key), sv(*final(shard_guard))),
             // absent: created with the increment
-            !old(shard_guard).data@.contains_key(key) && r is Ok ==> r->Ok_0 == increment
-                && final(shard_guard).data@.contains_key(key) && final(shard_guard).data@[key].value == Value::String(key_of(i64_str(increment)))
-                && final(shard_guard).data@[key].metadata.expires_at is None,
+            !eff(*old(shard_guard), key).data.contains_key(key) && r is Ok ==> r->Ok_0 == increment
+                && sv(*final(shard_guard)).data.contains_key(key) && sv(*final(shard_guard)).data[key].value == Value::String(key_of(i64_str(increment)))
+                && sv(*final(shard_guard)).data[key].metadata.expires_at is None,
             // present: must hold a decimal i64; result is the exact sum or an error on overflow; TTL survives
-            old(shard_guard).data@.contains_key(key) ==> (match old(shard_guard).data@[key].value {
+            eff(*old(shard_guard), key).data.contains_key(key) ==> (match eff(*old(shard_guard), key).data[key].value {
                 Value::String(b) => match spec_parse_i64(b@) {
                     Some(cur) => if i64::MIN <= cur + increment <= i64::MAX {
                             r == Ok::<i64, FerrousError>((cur + increment) as i64)
-                            && final(shard_guard).data@.contains_key(key)
-                            && final(shard_guard).data@[key].value == Value::String(key_of(i64_str((cur + increment) as i64)))
-                            && final(shard_guard).data@[key].metadata == old(shard_guard).data@[key].metadata
+                            && sv(*final(shard_guard)).data.contains_key(key)
+                            && sv(*final(shard_guard)).data[key].value == Value::String(key_of(i64_str((cur + increment) as i64)))
+                            && sv(*final(shard_guard)).data[key].metadata == eff(*old(shard_guard), key).data[key].metadata
                         } else { r is Err },
                     None => r is Err,
                 },
@@ -160,12 +161,13 @@ impl StorageEngine {
 //@@ end
 
 //@@ unit strlen fn src/storage/engine.rs StorageEngine::strlen
-//@@   params drop "db: DatabaseIndex" add "shard_guard: &DatabaseShard"
+//@@   params drop "db: DatabaseIndex" add "shard_guard: &mut DatabaseShard"
 //@@   rewrite R2
-    fn strlen(&self, shard_guard: &DatabaseShard, key: &[u8]) -> (r: Result<usize>)
+    fn strlen(&self, shard_guard: &mut DatabaseShard, key: &[u8]) -> (r: Result<usize>)
         ensures
-            !shard_guard.data@.contains_key(key_of(key@)) ==> r == Ok::<usize, FerrousError>(0),
-            shard_guard.data@.contains_key(key_of(key@)) ==> (match shard_guard.data@[key_of(key@)].value {
+            unchanged(eff(*old(shard_guard), key_of(key@)), sv(*final(shard_guard))),
+            !eff(*old(shard_guard), key_of(key@)).data.contains_key(key_of(key@)) ==> r == Ok::<usize, FerrousError>(0),
+            eff(*old(shard_guard), key_of(key@)).data.contains_key(key_of(key@)) ==> (match eff(*old(shard_guard), key_of(key@)).data[key_of(key@)].value {
                 Value::String(b) => r == Ok::<usize, FerrousError>(b@.len() as usize),
                 _ => r is Err,
             }),
